@@ -37,7 +37,12 @@ META = {
             "as a real page and extract_text_chunks / extract_text are compared with the model exactly, also with the content split "
             "over several streams, re-encoded by Content::encode(Content::decode(..)) and after save + reload (clause (d)); random "
             "pages are judged the same way by Trace_TextExtract. Only a loss of shown text inside the domain is a violation; exact "
-            "layout / chunk / error differences are listed as model drift.",
+            "layout / chunk / error differences are listed as model drift. The call level is explicit too (MC_TextExtractCall): "
+            "extract_text_chunks(page numbers) on documents whose pages bind the same font resource name to different fonts, for "
+            "every list of page numbers within the bounds (any order, repeats, numbers that name no page) must be the concatenation "
+            "of the one-page results (clause (e), per-page independence); the deviation switch 'font map carried over from earlier "
+            "pages of the call' is refuted by TLC; every case is replayed into real documents (own / inherited / shadowing "
+            "Resources), random 2-4 page documents with colliding names are judged by Trace_TextExtract, in memory and after reload.",
     "note": "Trusted: TLC, the transcription of Annex D rows in TextString!Published (cells whose Unicode value is ambiguous "
             "or undefined are left out and only checked for self-consistency), Rust's char/str for building inputs. "
             "Exhaustive for the model bounds and the 1280 table cells; scalar values beyond the boundaries are strided, "
@@ -394,9 +399,184 @@ def run_extract(chk, tier, w):
         vacuous(chk, "TextExtract negative controls not rejected as expected: want %s, got %s" % (want, [(v["v"], v["vs"], v["dr"]) for v in nv]))
     else:
         chk.extra["negative_controls_rejected"] = chk.extra.get("negative_controls_rejected", 0) + len(negs) - 1
-    md = chk.extra.get("model_drift_extract", {})
-    if md:
-        log("MODEL-DRIFT: property=C16 TextExtract observations that differ from the model outside C16's statement: %s" % json.dumps(md, sort_keys=True))
+
+
+XC_ACTIONS = ["PageBegin", "UnknownPage", "OpStep", "PageEnd", "CallEnd"]
+
+
+def xc_name(rec, o, shown_good):
+    """the clause a text lost by a multi-page call is reported under (same naming as Trace_TextExtract!JudgeCall)"""
+    if o["call"] in ("panic", "build-panic"):
+        return "extract.panic"
+    if len(o["nums"]) > 1 and all(shown_good(o["v"], [n]) for n in o["nums"]):
+        return "extract.e.page-list"
+    if o["v"] == "reload" and shown_good("mem", o["nums"]):
+        return "extract.d.reload"
+    return "extract.a"
+
+
+def run_extract_calls(chk, tier, w):
+    """Call level of TextExtract: several pages in one extract_text_chunks / extract_text call (clause (e))."""
+    cfg = "MC_TextExtractCall_quick.cfg" if tier == "quick" else "MC_TextExtractCall_thorough.cfg"
+    r = tlc("MC_TextExtractCall.tla", cfg, workers=4 if tier == "quick" else 16, coverage=True, timeout=3000,
+            xmx="4g" if tier == "quick" else "8g")
+    vlib.require_coverage(r, XC_ACTIONS)
+    chk.add_tlc(r)
+    # the switch "font map carried over from earlier pages of the call": TLC must refute clause (e) for it, and every
+    # refutation must be a collision of resource names between two pages of the call
+    rc = tlc("MC_TextExtractCall.tla", "MC_TextExtractCall_carry.cfg", workers=4 if tier == "quick" else 16, coverage=True, timeout=3000)
+    vlib.require_coverage(rc, XC_ACTIONS)
+    chk.add_tlc(rc)
+    rr = tlc("MC_TextExtractCall.tla", "MC_TextExtractCall_carry_refuted.cfg", workers=1, timeout=3000, allow_violation=True)
+    if rr.violation != "E":
+        raise vlib.ToolError("the deviation switch 'carry' was not refuted by TLC (expected a violation of invariant E, got %s)" % rr.violation)
+    chk.extra["dev_switch_carry_refuted"] = True
+    cases = r.tagged("REPLAY")
+    cases.sort(key=lambda c: json.dumps([c["pages"], c["nums"]], sort_keys=True))
+    fonts_model = r.tagged("FONTS")[0]
+    need = {
+        "two pages binding /F1 to different predefined encodings, in one in-domain call": any(
+            c["indomain"] and c["collision"] and len(set(c["nums"])) >= 2 and c["shown"] for c in cases),
+        "repeats": any(len(c["nums"]) > len(set(c["nums"])) for c in cases),
+        "a number that names no page": any(any(n > len(c["pages"]) for n in c["nums"]) for c in cases),
+    }
+    missing = [k for k, v in need.items() if not v]
+    if missing:
+        vacuous(chk, "vacuous call-level case set: missing %s" % missing)
+    cin, cout = os.path.join(w, "xcgen.ndjson"), os.path.join(w, "xcgen.out.ndjson")
+    write_ndjson(cin, cases)
+    run_bin("c16", ["xcreplay", "--in", cin, "--out", cout, "--reload-every", 4 if tier == "quick" else 8])
+    results = read_ndjson(cout)
+    if len(results) != len(cases):
+        raise vlib.ToolError("xcreplay lost cases")
+    sampled = []
+    mism = 0
+    for i, (c, rec) in enumerate(zip(cases, results)):
+        for p, pc in zip(rec["pages"], c["pages"]):
+            for f in p["fonts"]:
+                mf = fonts_model[pc["fm"]][f["n"]]
+                if f["okind"] != mf["kind"] or any(mf["cells"][str(code)] != cell for code, cell in zip(f["codes"], f["cells"]) if str(code) in mf["cells"]):
+                    if f["pre"] == "yes" and f["okind"] != "table":
+                        chk.violation("C16:extract.font-not-decodable", {"font": f, "case": c["pages"]})
+                    else:
+                        vacuous(chk, "harness font %s of page map %s is not the model's: %s vs %s" % (f["n"], pc["fm"], f, mf))
+        chk.case(json.dumps([c["pages"], c["nums"]]) if c["nums"] else None)
+        # shown text of a one-page call = what the declarative layer computed for the case with that single number:
+        # here only "did the page alone come back" is needed, which the harness observed next to the list
+        single_shown = {}
+        def shown_good(v, nums, rec=rec, c=c):
+            # in-domain pages only (the case is in the domain): the one-page observation must be ok; its text is judged
+            # by the one-page cases of the same document elsewhere in the case set
+            obs = [o for o in rec["calls"] if o["v"] == v and o["nums"] == nums]
+            if nums == c["nums"]:
+                return any(o["et"]["ok"] == "yes" and strip_layout(o["et"]["t"]) == strip_layout(c["shown"]) for o in obs)
+            return any(o["et"]["ok"] == "yes" for o in obs) and single_ok.get((v, tuple(nums)), True)
+        single_ok = {}
+        for o in rec["calls"]:
+            if o["nums"] != c["nums"]:
+                continue
+            chk.traces += 1
+            exact = (norm_chunks(o["chunks"]) == norm_chunks(c["chunks"]) and (o["et"]["ok"] == "yes") == c["et"]["ok"]
+                     and o["et"]["t"] == c["et"]["t"])
+            good = o["et"]["ok"] == "yes" and strip_layout(o["et"]["t"]) == strip_layout(c["shown"])
+            if c["indomain"] and not good and o["call"] != "save-load-failed":
+                chk.violation("C16:" + xc_name(rec, o, shown_good), {
+                    "pages": [{"fonts": [f["real"] for f in p["fonts"]], "ops": p["ops"], "res": p["res"]} for p in rec["pages"]],
+                    "page_numbers": o["nums"], "variant": o["v"], "shown": c["shown"],
+                    "lopdf": {k: o[k] for k in ("call", "chunks", "et", "msg")}, "model": {"chunks": c["chunks"], "et": c["et"]}})
+            elif not exact:
+                mism += 1
+                drift(chk, "replay.exact.call." + o["v"])
+        if i % 12 == 0 or (c["indomain"] and c["collision"] and i % 3 == 0):
+            sampled.append(rec)
+    chk.extra["extract_replayed_calls"] = len(cases)
+    chk.extra["extract_replay_inexact_call_observations"] = mism
+    k = next(i for i, c in enumerate(cases) if c["indomain"] and c["collision"] and c["nums"] == [2, 1])
+    chk.sample({"call_case_pages": cases[k]["pages"], "page_numbers": cases[k]["nums"], "model_chunks": cases[k]["chunks"],
+                "lopdf_chunks": [o["chunks"] for o in results[k]["calls"] if o["nums"] == [2, 1]][:1]})
+    # (V) random documents of 2-4 pages with colliding resource names
+    n = 120 if tier == "quick" else 2500
+    tr = os.path.join(w, "xctrace.ndjson")
+    run_bin("c16", ["xcrecord", "--seed", vlib.seed(), "--n", n, "--out", tr])
+    recs = read_ndjson(tr)
+    def enc_of(f):
+        return f["real"].split(":")[0]
+    need = {
+        "pages binding one name to different predefined encodings": sum(1 for rec in recs if len({enc_of(f) for p in rec["pages"] for f in p["fonts"] if f["n"] == "F1" and f["pre"] == "yes"}) >= 2) >= len(recs) // 4,
+        "a name bound to a ToUnicode font / a broken font on one page and a predefined one on another": all(
+            any(any(f["real"].startswith(s) for p in rec["pages"] for f in p["fonts"]) and any(f["pre"] == "yes" for p in rec["pages"] for f in p["fonts"]) for rec in recs)
+            for s in ("Identity-H", "no /Type")),
+        "own, inherited and shadowing resources": all(any(any(p["res"] == x for p in rec["pages"]) for rec in recs) for x in ("own", "inherited", "both")),
+        "reversed lists, repeats, unknown numbers": all(any(any(pred(o["nums"], len(rec["pages"])) for o in rec["calls"]) for rec in recs) for pred in (
+            lambda l, n: len(l) >= 2 and l == sorted(l, reverse=True) and len(set(l)) == len(l),
+            lambda l, n: len(l) > len(set(l)), lambda l, n: any(x == 0 or x > n for x in l))),
+        "2, 3 and 4 pages": all(any(len(rec["pages"]) == k for rec in recs) for k in (2, 3, 4)),
+        "reloaded documents": sum(1 for rec in recs if any(o["v"] == "reload" and o["call"] == "ok" for o in rec["calls"])) >= len(recs) // 2,
+    }
+    missing = [k for k, v in need.items() if not v]
+    if missing:
+        vacuous(chk, "vacuous recorded multi-page set: missing %s" % missing)
+    allrecs = recs + sampled
+    write_ndjson(tr, allrecs)
+    r2, verdicts = xt_validate(chk, tr, allrecs, "c16xctrace")
+    chk.add_tlc(r2)
+    cats = {}
+    for v in verdicts:
+        rec = allrecs[v["i"] - 1]
+        cats[v["cat"]] = cats.get(v["cat"], 0) + 1
+        chk.case(json.dumps([[(p["fonts"], p["ops"], p["res"]) for p in rec["pages"]], [o["nums"] for o in rec["calls"]]], sort_keys=True))
+        chk.traces += v["nobs"]
+        for f in v["vs"]:
+            chk.violation("C16:" + f, {"pages": [{"fonts": [(x["n"], x["real"]) for x in p["fonts"]], "ops": p["ops"], "res": p["res"]} for p in rec["pages"]],
+                                       "calls": [{k: o[k] for k in ("v", "nums", "call", "chunks", "et")} for o in rec["calls"]][:12],
+                                       "verdict": f, "all": v["vs"][:10]})
+        for d in v["dr"]:
+            drift(chk, d)
+    chk.extra["extract_call_record_categories"] = cats
+    for t_, least in (("call-domain-collision", 40), ("call-outside", 10)):
+        if cats.get(t_, 0) < least:
+            vacuous(chk, "vacuous multi-page validation: only %d documents of category %s (need %d)" % (cats.get(t_, 0), t_, least))
+    # (B) negative controls for clause (e), built from recorded inputs + the model's own results
+    def clone(x):
+        return json.loads(json.dumps(x))
+    def synth(cat):
+        for v in verdicts:
+            rec = allrecs[v["i"] - 1]
+            if v["cat"] != cat:
+                continue
+            rec = clone(rec)
+            for o, m in zip(rec["calls"], v["model"]["calls"]):
+                o["call"] = "ok"
+                o["chunks"] = [{"ok": "yes" if c["ok"] else "no", "t": c["t"]} for c in m["chunks"]]
+                o["et"] = {"ok": "yes" if m["et"]["ok"] else "no", "t": m["et"]["t"]}
+            multi = [o for o in rec["calls"] if len(set(o["nums"])) >= 2 and o["v"] == "mem" and (cat == "call-outside" or (o["et"]["ok"] == "yes" and strip_layout(o["et"]["t"])))]
+            if multi:
+                return rec, multi[0]
+        return None, None
+    negs, want = [], []
+    n0, _ = synth("call-domain-collision")
+    if n0:
+        negs.append(n0); want.append(("v", "ok-exact"))
+    n1, o = synth("call-domain-collision")
+    if n1:                                           # (e) the list loses a character that every page alone returns
+        ch = next(c for c in reversed(o["chunks"]) if c["ok"] == "yes" and strip_layout(c["t"]))
+        i = max(i for i, c in enumerate(ch["t"]) if c not in LAYOUT); ch["t"][i] ^= 1
+        j = max(i for i, c in enumerate(o["et"]["t"]) if c not in LAYOUT); o["et"]["t"][j] ^= 1
+        negs.append(n1); want.append(("vs", "extract.e.page-list"))
+    n2, o = synth("call-outside")
+    if n2:                                           # (e) outside the domain: a chunk more than the pages alone give
+        o["chunks"].insert(0, {"ok": "no", "t": []}); o["et"] = {"ok": "no", "t": []}
+        negs.append(n2); want.append(("dr", "e.call.mem"))
+    if len(negs) < 3:
+        vacuous(chk, "could not build all call-level negative controls (%d of 3)" % len(negs))
+    ntr = os.path.join(w, "xcneg.ndjson")
+    write_ndjson(ntr, negs)
+    _, nv = xt_validate(chk, ntr, negs, "c16xcneg")
+    got = [(v[k] == tag) if k == "v" else (tag in v[k]) for (k, tag), v in zip(want, nv)]
+    if not all(got):
+        vacuous(chk, "call-level negative controls not rejected as expected: want %s, got %s" % (want, [(v["v"], v["vs"][:3], v["dr"][:3]) for v in nv]))
+    else:
+        chk.extra["negative_controls_rejected"] = chk.extra.get("negative_controls_rejected", 0) + len(negs) - 1
 
 
 def table_sig(f, rec):
@@ -593,4 +773,8 @@ def run(tier):
         "malformed input (odd-length UTF-16, unpaired surrogates, ill-formed UTF-8, bytes outside the carried PDFDoc rows) is unconstrained except that it must not panic",
     ]
     run_extract(chk, tier, w)
+    run_extract_calls(chk, tier, w)
+    md = chk.extra.get("model_drift_extract", {})
+    if md:
+        log("MODEL-DRIFT: property=C16 TextExtract observations that differ from the model outside C16's statement: %s" % json.dumps(md, sort_keys=True))
     return chk.finish()
